@@ -136,7 +136,7 @@ def lifecycle_random(r, idx):
     if r.random() < 0.8:
         steps.append(workload(r, big=r.random() < 0.3))
     steps.append({"do": "run", "us": r.choice([0, 10000, 25000, 60000, 300000, 2000000])})
-    end = r.choice(["closeC", "closeS", "both", "crashS", "crashC", "none", "resetC"])
+    end = r.choice(["closeC", "closeS", "both", "crashS", "crashC", "none", "resetC", "closeC_reset", "closeS_reset"])
     if end in ("closeC", "both"):
         steps.append({"do": "op", "n": 1, "c": 0, "op": {"op": "close", "code": 5, "reason": "c"}})
     if end == "both":
@@ -149,6 +149,12 @@ def lifecycle_random(r, idx):
         steps.append({"do": "blackhole", "n": 1})
     if end == "resetC":
         steps.append({"do": "reset_like", "to": 1, "c": 0, "token": "exact", "len": 60})
+    if end in ("closeC_reset", "closeS_reset"):
+        # a local close answered by a stateless reset while the close timer is running
+        n = 1 if end == "closeC_reset" else 0
+        steps.append({"do": "op", "n": n, "c": 0, "op": {"op": "close", "code": 9, "reason": "x" * r.choice([1, 128])}})
+        steps.append({"do": "run", "us": r.choice([0, 1000, 15000])})
+        steps.append({"do": "reset_like", "to": n, "c": 0, "token": "exact", "len": r.choice([40, 60])})
     steps.append({"do": "run", "us": 2 * idle * 1000 + 8000000})
     return {"cfg": cfg, "steps": steps, "tag": {"family": "lifecycle-random", "end": end, "idx": idx}}
 
